@@ -278,6 +278,8 @@ func sxgMut(args []string) error {
 					ctx.emitVer(x, kc, t2, 0, signed, false, nil, false, false, "decoy member current, genuine member not")
 				}
 			}
+			mem("three items, genuine in the middle", func(x *sxg.Exchange) { x.SignatureHeaderValue = "junk;sig=*AAAA*, " + sig + ", other;sig=*BBBB*" })
+			mem("three items, genuine last", func(x *sxg.Exchange) { x.SignatureHeaderValue = "junk;sig=*AAAA*, other;sig=*BBBB*, " + sig })
 			mem("two items, junk first", func(x *sxg.Exchange) { x.SignatureHeaderValue = "junk;sig=*AAAA*, " + sig })
 			mem("two items, honest first", func(x *sxg.Exchange) { x.SignatureHeaderValue = sig + ", junk;sig=*AAAA*" })
 			// attacker re-signs modified content with their own key and certificate
